@@ -313,4 +313,294 @@ theorem reencode_sign (b : Bytes) (m : SignMsg) (hd : Sign.unmarshal b = .ok m)
     sigElem_shape (x := sgs[i]) (s := m.sigs[i]) (hidx i h1 h2)
   exact ⟨pi, ui, wi, ci, hx, hc, hrpi, hrui, hsi, by rw [hx]; rfl⟩
 
+/-! #### the fixpoint -/
+
+/-- the wire form the encoder gives a signer entry: immediate array head, both header items
+    unchanged, the signature content under the shortest head -/
+def shortSig : Wire → Wire
+  | .arr _ [p, u, sg] =>
+      .arr .imm [p, u, .bstr (HW.shortest (sigContent sg).length) (sigContent sg)]
+  | x => x
+
+theorem shortSig_bytes (w : HW) (p u sg : Wire) :
+    (shortSig (.arr w [p, u, sg])).bytes = reSig (.arr w [p, u, sg]) := by
+  have h83 : headBytes 4 .imm 3 = [0x83] := by decide
+  simp [shortSig, reSig, Wire.bytes, Wire.bytesList, h83, encBstr, encHead]
+
+/-- every element of an accepted signatures array is a signer entry -/
+theorem decSigList_elems : ∀ (xs : List Wire) (l : List SigV), decSigList xs = .ok l →
+    ∀ x ∈ xs, ∃ s, C05.SigElem x s
+  | [], _, _, _, hx => by cases hx
+  | y :: ys, l, h, x, hx => by
+    obtain ⟨s, r, hel, hr, rfl⟩ := C05.decSigList_cons_elem h
+    rcases List.mem_cons.mp hx with rfl | hx'
+    · exact ⟨s, hel⟩
+    · exact decSigList_elems ys r hr x hx'
+
+/-- the re-encoded entry decodes to the same value -/
+theorem sigElem_short {x : Wire} {s : SigV} (h : C05.SigElem x s) : C05.SigElem (shortSig x) s := by
+  obtain ⟨p, u, hw, c, rfl, hc, hs, hp, hu, hiv, hrp, hru⟩ := sigElem_shape h
+  refine ⟨p, u, .bstr (HW.shortest c.length) c, rfl, hp, hu, hiv, hrp, hru, ?_, ?_⟩
+  · rw [hs]; rfl
+  · rw [hs]; exact blen_some_ne hc
+
+theorem shortSig_wf {x : Wire} {s : SigV} (h : C05.SigElem x s) (hwf : x.wf = true) :
+    (shortSig x).wf = true := by
+  obtain ⟨p, u, hw, c, rfl, -⟩ := sigElem_shape h
+  simp only [Wire.wf, Wire.wfList, Bool.and_eq_true] at hwf
+  simp only [shortSig, sigContent, Wire.wf, Wire.wfList, Bool.and_eq_true]
+  exact ⟨hwf.1, hwf.2.1, hwf.2.2.1, Reencode.shortest_fits (Reencode.fits_lt hwf.2.2.2.1), trivial⟩
+
+theorem shortSig_inLimits {x : Wire} {s : SigV} (h : C05.SigElem x s) {d : Nat}
+    (hl : x.inLimits false d = true) : (shortSig x).inLimits false d = true := by
+  obtain ⟨p, u, hw, c, rfl, -⟩ := sigElem_shape h
+  simp only [Wire.inLimits, Wire.inLimitsList, Bool.and_eq_true] at hl
+  simp only [shortSig, sigContent, Wire.inLimits, Wire.inLimitsList, Bool.and_eq_true]
+  exact ⟨hl.1, hl.2.1, hl.2.2.1, trivial, trivial⟩
+
+theorem shortSig_list_wf : ∀ (xs : List Wire), (∀ x ∈ xs, ∃ s, C05.SigElem x s) →
+    Wire.wfList xs = true → Wire.wfList (xs.map shortSig) = true
+  | [], _, _ => rfl
+  | x :: xs, hel, hwf => by
+    simp only [Wire.wfList, Bool.and_eq_true] at hwf
+    obtain ⟨s, hs⟩ := hel x (List.mem_cons_self ..)
+    simp only [List.map_cons, Wire.wfList, Bool.and_eq_true]
+    exact ⟨shortSig_wf hs hwf.1,
+      shortSig_list_wf xs (fun y hy => hel y (List.mem_cons_of_mem _ hy)) hwf.2⟩
+
+theorem shortSig_list_inLimits (d : Nat) : ∀ (xs : List Wire),
+    (∀ x ∈ xs, ∃ s, C05.SigElem x s) → Wire.inLimitsList false d xs = true →
+    Wire.inLimitsList false d (xs.map shortSig) = true
+  | [], _, _ => rfl
+  | x :: xs, hel, hl => by
+    simp only [Wire.inLimitsList, Bool.and_eq_true] at hl
+    obtain ⟨s, hs⟩ := hel x (List.mem_cons_self ..)
+    simp only [List.map_cons, Wire.inLimitsList, Bool.and_eq_true]
+    exact ⟨shortSig_inLimits hs hl.1,
+      shortSig_list_inLimits d xs (fun y hy => hel y (List.mem_cons_of_mem _ hy)) hl.2⟩
+
+theorem shortSig_list_bytes : ∀ (xs : List Wire), (∀ x ∈ xs, ∃ s, C05.SigElem x s) →
+    Wire.bytesList (xs.map shortSig) = (xs.map reSig).flatten
+  | [], _ => rfl
+  | x :: xs, hel => by
+    obtain ⟨s, p, u, sg, rfl, -⟩ := hel x (List.mem_cons_self ..)
+    simp only [List.map_cons, Wire.bytesList, List.flatten_cons, shortSig_bytes,
+      shortSig_list_bytes xs (fun y hy => hel y (List.mem_cons_of_mem _ hy))]
+
+/-- one step of `decSigList`, forwards -/
+theorem decSigList_cons_of {x : Wire} {xs : List Wire} {s : SigV} {r : List SigV}
+    (hel : C05.SigElem x s) (hr : decSigList xs = .ok r) :
+    decSigList (x :: xs) = .ok (s :: r) := by
+  obtain ⟨p, u, sg, rfl, hp, hu, hiv, hrp, hru, hsg, hz⟩ := hel
+  have hf := decSigFields_of hsg hz hp hu hiv
+  have hv : sigOfVal (.csig (some p.bytes) s.h.p (some u.bytes) s.h.u s.sig) = some s := by
+    obtain ⟨⟨rp, pm, ru, um⟩, sig⟩ := s
+    simp only at hrp hru
+    subst hrp hru
+    rfl
+  unfold decSigList
+  simp only [hf, hr, hv]
+
+/-- the re-encoded signatures array decodes to the same list of values -/
+theorem decSigList_short : ∀ (xs : List Wire) (l : List SigV), decSigList xs = .ok l →
+    decSigList (xs.map shortSig) = .ok l
+  | [], l, h => h
+  | x :: xs, l, h => by
+    obtain ⟨s, r, hel, hr, rfl⟩ := C05.decSigList_cons_elem h
+    exact decSigList_cons_of (sigElem_short hel) (decSigList_short xs r hr)
+
+theorem sign_unmarshal_of {r : Bytes} {hw hws : HW} {p u pl : Wire} {xs : List Wire}
+    {pay : Option Bytes} {sigs : List SigV} {h : Hdrs}
+    (hpt : parseTop false (0x84 :: r) = some (.arr hw [p, u, pl, .arr hws xs]))
+    (hpl : decByteString pl = .ok pay) (hne : xs ≠ []) (hs : decSigList xs = .ok sigs)
+    (hh : decHeaders p u = .ok h) :
+    Sign.unmarshal (0xd8 :: 0x62 :: 0x84 :: r) = .ok { h := h, payload := pay, sigs := sigs } := by
+  simp [Sign.unmarshal, hpt, hpl, hne, hs, hh]
+
+/-- the tree the encoder's output is the encoding of -/
+def shortSignTree (p u : Wire) (pay : Option Bytes) (sgs : List Wire) : Wire :=
+  .arr .imm [p, u, shortItem pay, .arr (HW.shortest sgs.length) (sgs.map shortSig)]
+
+theorem shortSignTree_bytes (p u : Wire) (pay : Option Bytes) (sgs : List Wire)
+    (hel : ∀ x ∈ sgs, ∃ s, C05.SigElem x s) :
+    (shortSignTree p u pay sgs).bytes = 0x84 :: (p.bytes ++ (u.bytes ++
+      (optBytesEnc pay ++ (encHead 4 sgs.length ++ (sgs.map reSig).flatten)))) := by
+  have h84 : headBytes 4 .imm 4 = [0x84] := by decide
+  simp [shortSignTree, Wire.bytes, Wire.bytesList, h84, shortItem_bytes, shortSig_list_bytes sgs hel,
+    encHead]
+
+/-- core of 5: the re-encoded bytes decode to the same value -/
+theorem sign_unmarshal_marshal_tree {m : SignMsg} {p u pl : Wire} {hws : HW} {sgs : List Wire}
+    (hwf : (Wire.arr .imm [p, u, pl, .arr hws sgs]).wf = true)
+    (hlim : (Wire.arr .imm [p, u, pl, .arr hws sgs]).inLimits false 0 = true)
+    (hpl : decByteString pl = .ok m.payload) (hh : decHeaders p u = .ok m.h) (hne : sgs ≠ [])
+    (hs : decSigList sgs = .ok m.sigs) :
+    Sign.unmarshal (0xd8 :: 0x62 :: (shortSignTree p u m.payload sgs).bytes) = .ok m := by
+  have hel := decSigList_elems sgs m.sigs hs
+  have hwf' : (shortSignTree p u m.payload sgs).wf = true := by
+    simp only [Wire.wf, Wire.wfList, Bool.and_eq_true] at hwf
+    simp only [shortSignTree, Wire.wf, Wire.wfList, Bool.and_eq_true, List.length_map]
+    exact ⟨hwf.1, hwf.2.1, hwf.2.2.1, shortItem_wf hwf.2.2.2.1 hpl,
+      ⟨Reencode.shortest_fits (Reencode.fits_lt hwf.2.2.2.2.1.1),
+        shortSig_list_wf sgs hel hwf.2.2.2.2.1.2⟩, trivial⟩
+  have hlim' : (shortSignTree p u m.payload sgs).inLimits false 0 = true := by
+    simp only [Wire.inLimits, Wire.inLimitsList, Bool.and_eq_true] at hlim
+    simp only [shortSignTree, Wire.inLimits, Wire.inLimitsList, Bool.and_eq_true, List.length_map]
+    exact ⟨hlim.1, hlim.2.1, hlim.2.2.1, shortItem_inLimits _ _,
+      ⟨hlim.2.2.2.2.1.1, shortSig_list_inLimits _ sgs hel hlim.2.2.2.2.1.2⟩, trivial⟩
+  have hpt := parseTop_complete hwf' hlim'
+  rw [shortSignTree_bytes p u m.payload sgs hel] at hpt ⊢
+  have hne' : sgs.map shortSig ≠ [] := by
+    intro hc
+    exact hne (List.map_eq_nil_iff.mp hc)
+  exact sign_unmarshal_of hpt (shortItem_dec _) hne' (decSigList_short sgs m.sigs hs) hh
+
+theorem marshalSigs_modelled : ∀ (l : List SigV) (b : Bytes), marshalSigs l = .ok b →
+    ∀ s ∈ l, GoVal.modelledPairs s.h.p = true ∧ GoVal.modelledPairs s.h.u = true
+  | [], _, _, _, hs => by cases hs
+  | x :: r, b, h, s, hs => by
+    unfold marshalSigs at h
+    cases hx : Signature.marshal x with
+    | ok a =>
+      cases hr : marshalSigs r with
+      | ok bb =>
+        rcases List.mem_cons.mp hs with rfl | hs'
+        · exact signature_modelled_of_marshal_ok hx
+        · exact marshalSigs_modelled r bb hr s hs'
+      | err e => simp [hx, hr] at h
+      | panic => simp [hx, hr] at h
+      | unmodelled => simp [hx, hr] at h
+    | err e => simp [hx] at h
+    | panic => simp [hx] at h
+    | unmodelled => simp [hx] at h
+
+/-- a successful encoding implies every header map is in the modelled region (otherwise the
+    model answers `unmodelled`) -/
+theorem sign_modelled_of_marshal_ok {m : SignMsg} {b1 : Bytes} (he : Sign.marshal m = .ok b1) :
+    SignModelled m := by
+  unfold Sign.marshal at he
+  split at he
+  · cases he
+  · cases hh : m.h.marshal with
+    | ok x =>
+      cases hs : marshalSigs m.sigs with
+      | ok ss => exact ⟨hdrs_modelled_of_marshal_ok hh, marshalSigs_modelled m.sigs ss hs⟩
+      | err e => simp [hh, hs] at he
+      | panic => simp [hh, hs] at he
+      | unmodelled => simp [hh, hs] at he
+    | err e => simp [hh] at he
+    | panic => simp [hh] at he
+    | unmodelled => simp [hh] at he
+
+/-- 5. decode/encode cycles of a COSE_Sign are a fixpoint after the first: the re-encoded bytes
+    decode to the SAME value (body headers with their retained raw bytes, payload, and every
+    signer's headers, raw bytes and signature), so all signatures still verify (`Sign.verify` is
+    a function of the value), and that value encodes to the same bytes again.  No modelling
+    hypothesis is needed: a successful encoding implies it. -/
+theorem reencode_sign_fixpoint (b b1 : Bytes) (m : SignMsg) (hd : Sign.unmarshal b = .ok m)
+    (he : Sign.marshal m = .ok b1) :
+    ∃ m1, Sign.unmarshal b1 = .ok m1 ∧ m1 = m ∧ Sign.marshal m1 = .ok b1 := by
+  obtain ⟨hws, p, u, pl, sgs, -, -, hwf, -, hlim, hpl, hh, hne, hs⟩ :=
+    C05.sign_accept_envelope_full hd
+  have h1 := sign_marshal_of_decoded hh hne hs (sign_modelled_of_marshal_ok he)
+  rw [he, (C05.decSigList_ok sgs m.sigs hs).1,
+    ← shortSignTree_bytes p u m.payload sgs (decSigList_elems sgs m.sigs hs)] at h1
+  cases h1
+  exact ⟨m, sign_unmarshal_marshal_tree hwf hlim hpl hh hne hs, rfl, he⟩
+
+/-! #### corollaries: round trip, idempotent cycle, deterministic inputs reproduced -/
+
+theorem shortSig_length_le {x : Wire} {s : SigV} (h : C05.SigElem x s) (hwf : x.wf = true) :
+    (shortSig x).bytes.length ≤ x.bytes.length := by
+  obtain ⟨p, u, hw, c, rfl, -⟩ := sigElem_shape h
+  simp only [Wire.wf, Wire.wfList, Bool.and_eq_true] at hwf
+  have := shortest_head_le 2 hwf.2.2.2.1
+  simp only [shortSig, sigContent, Wire.bytes, Wire.bytesList, List.length_append,
+    List.length_cons, List.length_nil]
+  omega
+
+theorem shortSig_list_length_le : ∀ (xs : List Wire), (∀ x ∈ xs, ∃ s, C05.SigElem x s) →
+    Wire.wfList xs = true →
+    (Wire.bytesList (xs.map shortSig)).length ≤ (Wire.bytesList xs).length
+  | [], _, _ => Nat.le_refl _
+  | x :: xs, hel, hwf => by
+    simp only [Wire.wfList, Bool.and_eq_true] at hwf
+    obtain ⟨s, hs⟩ := hel x (List.mem_cons_self ..)
+    have h1 := shortSig_length_le hs hwf.1
+    have h2 := shortSig_list_length_le xs (fun y hy => hel y (List.mem_cons_of_mem _ hy)) hwf.2
+    simp only [List.map_cons, Wire.bytesList, List.length_append]
+    omega
+
+/-- 5'. encoding a decoded COSE_Sign always succeeds (in the modelled region), round-trips to
+    the same value, and never lengthens the message -/
+theorem reencode_sign_roundtrip (b : Bytes) (m : SignMsg) (hd : Sign.unmarshal b = .ok m)
+    (hm : SignModelled m) :
+    ∃ b1, Sign.marshal m = .ok b1 ∧ Sign.unmarshal b1 = .ok m ∧ b1.length ≤ b.length := by
+  obtain ⟨hws, p, u, pl, sgs, hb, -, hwf, -, hlim, hpl, hh, hne, hs⟩ :=
+    C05.sign_accept_envelope_full hd
+  have hel := decSigList_elems sgs m.sigs hs
+  have h1 := sign_marshal_of_decoded hh hne hs hm
+  rw [(C05.decSigList_ok sgs m.sigs hs).1, ← shortSignTree_bytes p u m.payload sgs hel] at h1
+  refine ⟨_, h1, sign_unmarshal_marshal_tree hwf hlim hpl hh hne hs, ?_⟩
+  simp only [Wire.wf, Wire.wfList, Bool.and_eq_true] at hwf
+  have l1 := shortItem_length_le hwf.2.2.2.1 hpl
+  have l2 := shortSig_list_length_le sgs hel hwf.2.2.2.2.1.2
+  have l3 := shortest_head_le 4 hwf.2.2.2.2.1.1
+  rw [hb]
+  simp only [shortSignTree, Wire.bytes, Wire.bytesList, List.length_append, List.length_cons,
+    List.length_nil, List.length_map] at l3 ⊢
+  omega
+
+/-- one decode/encode cycle of a COSE_Sign -/
+def signCycle (b : Bytes) : Out Bytes := Sign.unmarshal b >>= Sign.marshal
+
+/-- 5''. the COSE_Sign cycle is idempotent -/
+theorem signCycle_idempotent (b b1 : Bytes) (h : signCycle b = .ok b1) : signCycle b1 = .ok b1 := by
+  unfold signCycle at h
+  cases hd : Sign.unmarshal b with
+  | ok m =>
+    simp only [hd, Out.bind_ok] at h
+    obtain ⟨m1, h1, rfl, h2⟩ := reencode_sign_fixpoint b b1 m hd h
+    simp [signCycle, h1, h2]
+  | err e => simp [hd] at h
+  | panic => simp [hd] at h
+  | unmodelled => simp [hd] at h
+
+/-- a signer entry whose signature byte string already carries the shortest head is re-emitted
+    as it is -/
+theorem shortSig_id_of_shortest {x : Wire}
+    (h : ∃ p u c, x = .arr .imm [p, u, .bstr (HW.shortest c.length) c]) : shortSig x = x := by
+  obtain ⟨p, u, c, rfl⟩ := h
+  rfl
+
+/-- 4'. a deterministically encoded COSE_Sign is reproduced identically: if the payload, the
+    signatures array and every signature byte string of the input carry shortest heads, encoding
+    the decoded message gives back the input.  Nothing is assumed about the header buckets of
+    the body or of the signers — they are copied verbatim.  Well-formedness identifies the tree
+    as *the* parse of the input (`Reencode.bytes_inj`). -/
+theorem reencode_sign_det_identity (b : Bytes) (m : SignMsg) (hd : Sign.unmarshal b = .ok m)
+    (hm : SignModelled m) (hw hws : HW) (p u pl : Wire) (sgs : List Wire)
+    (hb : b = 0xd8 :: 0x62 :: (Wire.arr hw [p, u, pl, .arr hws sgs]).bytes)
+    (hwf : (Wire.arr hw [p, u, pl, .arr hws sgs]).wf = true)
+    (hspl : pl = .prim .imm 22 ∨ ∃ c, pl = .bstr (HW.shortest c.length) c)
+    (hshw : hws = HW.shortest sgs.length)
+    (hssg : ∀ x ∈ sgs, ∃ p u c, x = .arr .imm [p, u, .bstr (HW.shortest c.length) c]) :
+    Sign.marshal m = .ok b := by
+  obtain ⟨hws0, p0, u0, pl0, sgs0, hb0, -, hwf0, -, hlim0, hpl, hh, hne, hs⟩ :=
+    C05.sign_accept_envelope_full hd
+  have hbytes : (Wire.arr hw [p, u, pl, .arr hws sgs]).bytes
+      = (Wire.arr .imm [p0, u0, pl0, .arr hws0 sgs0]).bytes := by
+    have := hb.symm.trans hb0
+    simpa using this
+  have heq := Reencode.bytes_inj hwf hwf0 hbytes
+  simp only [Wire.arr.injEq, List.cons.injEq, and_true] at heq
+  obtain ⟨rfl, rfl, rfl, rfl, rfl, rfl⟩ := heq
+  have hel := decSigList_elems sgs m.sigs hs
+  have h1 := sign_marshal_of_decoded hh hne hs hm
+  rw [(C05.decSigList_ok sgs m.sigs hs).1, ← shortSignTree_bytes p u m.payload sgs hel] at h1
+  have hmap : sgs.map shortSig = sgs := by
+    have : ∀ x ∈ sgs, shortSig x = id x := fun x hx => shortSig_id_of_shortest (hssg x hx)
+    rw [List.map_congr_left this, List.map_id]
+  rw [h1, hb, shortSignTree, hmap, ← shortest_eq_shortItem hspl hpl, hshw]
+
 end C09
